@@ -154,33 +154,21 @@ def c08b(ctx):
     uses_norm = any(is_call(x, 'main_tile') for x in lk.walk())
     if uses_norm:
         mt = ctx.fn('mapproxy/grid.py:MetaGrid.main_tile')
-        defs = Defs(mt.node)
-        rets = returns_of(mt.node)
-        if len(rets) != 1 or not isinstance(rets[0].value, ast.Tuple) or len(rets[0].value.elts) != 3:
+        rets = [r for r in returns_of(mt.node) if r.value is not None]
+        cf = Canon(mt)
+        forms = [cf.expr(r.value) for r in rets]
+        if len(rets) != 1 or not isinstance(forms[0], ast.Tuple) or len(forms[0].elts) != 3:
             raise Undecided('MetaGrid.main_tile does not return a 3-tuple')
-        coord = {k: {n for n, ds in defs.defs.items() for v, sel in ds if sel == k and unparse(v) == 'tile_coord'}
-                 for k in range(3)}
+        P = mt.node.args.args[1].arg if len(mt.node.args.args) > 1 else 'tile_coord'
         for k in (0, 1):
-            e = rets[0].value.elts[k]
-            while isinstance(e, ast.Name) and defs.single(e.id) and defs.single(e.id)[1] is None:
-                e = defs.single(e.id)[0]
-            ok = isinstance(e, ast.BinOp) and isinstance(e.op, ast.Mult) and isinstance(e.left, ast.BinOp) and \
-                isinstance(e.left.op, ast.FloorDiv) and isinstance(e.left.left, ast.Name) and e.left.left.id in coord[k] \
-                and unparse(e.left.right) == unparse(e.right) and isinstance(e.right, ast.Subscript) and \
-                const_value(e.right.slice) == k
-            ms_ok = False
-            if ok:
-                base = e.right.value
-                if isinstance(base, ast.Name):
-                    d = defs.single(base.id)
-                    ms_ok = bool(d) and is_call(d[0], '_meta_size') and d[0].args and \
-                        isinstance(d[0].args[0], ast.Name) and d[0].args[0].id in coord[2]
-            ctx.check(ok and ms_ok, 'MetaGrid.main_tile:quotient-%s' % 'xy'[k],
+            got = ast.unparse(forms[0].elts[k]).replace(' ', '')
+            m = 'self._meta_size(%s[2])[%d]' % (P, k)
+            want = {'%s[%d]//%s*%s' % (P, k, m, m), '%s*(%s[%d]//%s)' % (m, P, k, m)}
+            ctx.check(got in want, 'MetaGrid.main_tile:quotient-%s' % 'xy'[k],
                       'main tile on axis %d is v // m[%d] * m[%d] with m = _meta_size(level of the same tile)' % (k, k, k),
                       mt, rets[0], fail='main tile on axis %d is %s: not the quotient form v // m[%d] * m[%d] with the '
-                      'level\'s own meta size -- tiles of one meta tile map to different locks' % (k, unparse(e), k, k))
-        e = rets[0].value.elts[2]
-        ctx.check(isinstance(e, ast.Name) and e.id in coord[2], 'MetaGrid.main_tile:level', 'the level is passed through', mt)
+                      'level\'s own meta size -- tiles of one meta tile map to different locks' % (k, got, k, k))
+        ctx.check(ast.unparse(forms[0].elts[2]).replace(' ', '') == '%s[2]' % P, 'MetaGrid.main_tile:level', 'the level is passed through', mt)
     else:
         ctx.ok('TileManager.lock:no-normalisation', 'lock() does not normalise; MetaTile.main_tile_coord is used as is', lk)
 
